@@ -16,7 +16,7 @@ Hypothesis dec_enc : forall s, dec (enc s) = Some s.
     the stored fields, and hence the table handed to the serving code, are the same. *)
 Theorem C15_same_tables : forall m r,
   scan_rep m = Ok r -> init_ts_ok m ->
-  load_json B dec (enc (to_stored r)) (m_init m) = Ok (stored_fields r) /\
+  load_json B dec (enc (to_stored r)) (m_init_at m) = Ok (stored_fields r) /\
   to_stored (stored_fields r) = to_stored r /\ trep (stored_fields r) = trep r.
 Proof.
   exact (fun m r Hs Ht => conj (load_json_of_scan B enc dec dec_enc m r Hs Ht)
@@ -55,6 +55,15 @@ Theorem C15_idempotent : forall l c assets c1,
   discover B enc dec mode_write l c = Ok (assets, c1) ->
   exists c2, discover B enc dec mode_write l c1 = Ok (assets, c2) /\ forall a id, c2 a id = c1 a id.
 Proof. exact (write_idempotent B enc dec). Qed.
+
+(** Write mode refreshes: over any directory (files of an earlier version of the asset, truncated or
+    corrupt files) a write run leaves, for every representation it scanned, exactly the file a write
+    run into an empty directory produces; other files are not touched. *)
+Theorem C15_write_refreshes : forall l c assets c1,
+  discover B enc dec mode_write l c = Ok (assets, c1) ->
+  exists c0, discover B enc dec mode_write l (fun _ _ => CAbsent) = Ok (assets, c0) /\
+             forall a id, c1 a id = c0 a id \/ (c1 a id = c a id /\ c0 a id = CAbsent).
+Proof. exact (write_refreshes B enc dec). Qed.
 
 (** ... and a representation loaded from a file is written back as the same file. *)
 Theorem C15_idempotent_file : forall r, enc (to_stored (stored_fields r)) = enc (to_stored r).
@@ -206,7 +215,7 @@ Proof. exact (conj w_no_type_served w_no_duration_served). Qed.
 (** The hypothesis [init_ts_ok] of C15_same_tables is needed: with an init timescale of 0 the
     cache path resets DefaultSampleDuration. *)
 Theorem C15_same_tables_ts0_refuted :
-  exists r r', scan_rep w_ts0 = Ok r /\ load_json stored dec0 (enc0 (to_stored r)) (m_init w_ts0) = Ok r' /\
+  exists r r', scan_rep w_ts0 = Ok r /\ load_json stored dec0 (enc0 (to_stored r)) (m_init_at w_ts0) = Ok r' /\
                r_dsd r = 3000 /\ r_dsd r' = 0.
 Proof. exact w_ts0_differs. Qed.
 
@@ -223,6 +232,7 @@ Print Assumptions C15_same_responses.
 Print Assumptions C15_write_mode_same.
 Print Assumptions C15_cache_after_write.
 Print Assumptions C15_idempotent.
+Print Assumptions C15_write_refreshes.
 Print Assumptions C15_idempotent_file.
 Print Assumptions C15_admission.
 Print Assumptions C15_admission_wf_loop.
